@@ -2,7 +2,7 @@
 # tryseed.sh <property> <patch.diff> : apply a seeded change to a scratch copy of /repo and run the property's check
 set -u
 export GOFLAGS=-mod=mod GOPROXY=off GOSUMDB=off GOTOOLCHAIN=local; unset GOWORK
-VERIF=/verif; p=$1; patch=$2; shift 2
+VERIF=/verif; p=$1; patch=$(readlink -f "$2"); shift 2
 WT=$(mktemp -d /tmp/verif-tryseed.XXXXXX); trap 'rm -rf "$WT"' EXIT
 (cd /repo && git ls-files -z | xargs -0 tar -cf - 2>/dev/null) | tar -xf - -C "$WT"
 (cd "$WT" && git init -q . && git add -A >/dev/null 2>&1 && git -c user.email=v@v -c user.name=v commit -qm base >/dev/null)
